@@ -7,6 +7,7 @@ import (
 	"errors"
 	"fmt"
 	"io"
+	"io/ioutil"
 	"strings"
 	"sync"
 	"time"
@@ -31,6 +32,9 @@ type WebsocketTransport struct {
 
 	closeCtx  context.Context
 	closeFunc context.CancelFunc
+	// readerDone is closed when the reader goroutine of the current connection has stopped: the websocket can
+	// no longer be read (closed by the peer, connection lost, message over the size limit).
+	readerDone chan struct{}
 	// cleanupOnce makes the teardown of a connection happen once. Close has a value receiver: the nil
 	// markers cleanup sets are lost with the copy, and a second Close (the keepalive answering a ping that
 	// failed because the session was just closed) closed the queue channel again: a panic.
@@ -39,6 +43,7 @@ type WebsocketTransport struct {
 
 func (t *WebsocketTransport) Connect() (string, error) {
 	t.queue = make(chan []byte, 256)
+	t.readerDone = make(chan struct{})
 	t.closeCtx, t.closeFunc = context.WithCancel(context.Background())
 	t.cleanupOnce = new(sync.Once)
 
@@ -90,23 +95,29 @@ func (t WebsocketTransport) StartStream() (string, error) {
 // is required to allow Ping() to work: Ping requires a Reader to be running
 // to process incoming control frames.
 func (t WebsocketTransport) startReader() {
+	queue, done, wsConn, ctx := t.queue, t.readerDone, t.wsConn, t.closeCtx
 	go func() {
-		buffer := make([]byte, maxPacketSize)
+		// When the websocket cannot be read any more the blocked Read has to fail (the loss of the connection
+		// must be noticed and reported), instead of waiting for data that will never come.
+		defer close(done)
 		for {
-			_, reader, err := t.wsConn.Reader(t.closeCtx)
+			_, reader, err := wsConn.Reader(ctx)
 			if err != nil {
 				return
 			}
-			n, err := reader.Read(buffer)
-			if err != nil && err != io.EOF {
+			// One XMPP element is one websocket MESSAGE, which the peer or any intermediary may have
+			// split into several frames (RFC 6455 5.4): read all of it. The read limit of the
+			// connection bounds its size.
+			data, err := ioutil.ReadAll(reader)
+			if err != nil {
 				return
 			}
-			if n > 0 {
-				// We need to make a copy, otherwise we will overwrite the slice content
-				// on the next iteration of the for loop.
-				tmp := make([]byte, n)
-				copy(tmp, buffer)
-				t.queue <- tmp
+			if len(data) > 0 {
+				select {
+				case queue <- data:
+				case <-ctx.Done():
+					return
+				}
 			}
 		}
 	}()
@@ -139,15 +150,30 @@ func (t WebsocketTransport) Ping() error {
 }
 
 func (t *WebsocketTransport) Read(p []byte) (int, error) {
-	select {
-	case <-t.closeCtx.Done():
-		return 0, t.closeCtx.Err()
-	case data := <-t.queue:
+	queue, done, ctx := t.queue, t.readerDone, t.closeCtx
+	if ctx == nil || queue == nil {
+		return 0, errors.New("cannot read: not connected, no websocket connection")
+	}
+	deliver := func(data []byte) (int, error) {
 		if t.logFile != nil && len(data) > 0 {
 			_, _ = fmt.Fprintf(t.logFile, "RECV:\n%s\n\n", data)
 		}
 		copy(p, data)
 		return len(data), nil
+	}
+	select {
+	case <-ctx.Done():
+		return 0, ctx.Err()
+	case data := <-queue:
+		return deliver(data)
+	case <-done:
+		// The reader has stopped: hand out what it had received before, then report the end.
+		select {
+		case data := <-queue:
+			return deliver(data)
+		default:
+			return 0, io.EOF
+		}
 	}
 }
 
@@ -177,10 +203,9 @@ func (t *WebsocketTransport) cleanup(code websocket.StatusCode) error {
 		once = new(sync.Once)
 	}
 	once.Do(func() {
-		if t.queue != nil {
-			close(t.queue)
-			t.queue = nil
-		}
+		// The queue is not closed: the reader goroutine may be about to send on it. Both it and a blocked
+		// Read are released by the cancellation of closeCtx below.
+		t.queue = nil
 		if t.wsConn != nil {
 			err = t.wsConn.Close(websocket.StatusGoingAway, "Done")
 			t.wsConn = nil
